@@ -43,11 +43,12 @@ class Unknown(Exception):
 class AtomEval:
     """Evaluates boolean type tests for an environment {expr_text: atom}."""
 
-    def __init__(self, repo, mod, env, depth=0):
+    def __init__(self, repo, mod, env, depth=0, consts=None):
         self.repo = repo
         self.mod = mod
         self.env = env
         self.depth = depth
+        self.consts = consts or {}     # expr text -> concrete constant (e.g. arg_type -> 'number')
 
     def atom_of(self, node):
         key = norm(node)
@@ -56,6 +57,23 @@ class AtomEval:
         raise Unknown(f'no atom for {key}')
 
     def classes(self, node):
+        if isinstance(node, ast.Subscript) and isinstance(node.value, ast.Name) and norm(node.slice) in self.consts and node.value.id in self.mod.assigns:
+            table = self.mod.assigns[node.value.id][0]
+            if isinstance(table, ast.Dict):
+                key = self.consts[norm(node.slice)]
+                for k, v in zip(table.keys, table.values):
+                    if isinstance(k, ast.Constant) and k.value == key:
+                        return self.classes(v)
+                raise Unknown(f'{node.value.id} has no entry {key!r}')
+        if isinstance(node, ast.Call) and isinstance(node.func, ast.Attribute) and node.func.attr == 'get' and isinstance(node.func.value, ast.Name) \
+                and node.args and norm(node.args[0]) in self.consts and node.func.value.id in self.mod.assigns:
+            table = self.mod.assigns[node.func.value.id][0]
+            if isinstance(table, ast.Dict):
+                key = self.consts[norm(node.args[0])]
+                for k, v in zip(table.keys, table.values):
+                    if isinstance(k, ast.Constant) and k.value == key:
+                        return self.classes(v)
+                return []
         elts = node.elts if isinstance(node, ast.Tuple) else [node]
         out = []
         for e in elts:
@@ -76,12 +94,34 @@ class AtomEval:
             return all(vals) if isinstance(e.op, ast.And) else any(vals)
         if isinstance(e, ast.UnaryOp) and isinstance(e.op, ast.Not):
             return not self.test(e.operand)
+        if isinstance(e, ast.IfExp):
+            return self.test(e.body) if self.test(e.test) else self.test(e.orelse)
         if isinstance(e, ast.Compare) and len(e.ops) == 1:
             op = e.ops[0]
             l, r = e.left, e.comparators[0]
+            if isinstance(op, (ast.Is, ast.IsNot)) and isinstance(r, ast.Constant) and r.value is None and isinstance(l, ast.Call) \
+                    and isinstance(l.func, ast.Attribute) and l.func.attr == 'get' and l.args and norm(l.args[0]) in self.consts:
+                present = bool(self.classes(l))
+                return (not present) if isinstance(op, ast.Is) else present
             if isinstance(op, (ast.Is, ast.IsNot)) and isinstance(r, ast.Constant) and r.value is None:
                 res = self.atom_of(l) == 'None'
                 return res if isinstance(op, ast.Is) else not res
+            if isinstance(op, (ast.Eq, ast.NotEq, ast.In, ast.NotIn)):
+                lt = norm(l)
+                if lt in self.consts:
+                    try:
+                        rv = ast.literal_eval(r)
+                    except (ValueError, SyntaxError):
+                        rv = None
+                        if norm(r) in self.consts:
+                            rv = self.consts[norm(r)]
+                        else:
+                            raise Unknown(norm(e))
+                    if isinstance(op, (ast.Eq, ast.NotEq)):
+                        res = self.consts[lt] == rv
+                        return res if isinstance(op, ast.Eq) else not res
+                    res = self.consts[lt] in rv
+                    return res if isinstance(op, ast.In) else not res
             if isinstance(op, (ast.Eq, ast.NotEq)):
                 for a, b in ((l, r), (r, l)):
                     if isinstance(a, ast.Call) and call_name(a) == 'value_type' and const_str(b) is not None:
